@@ -55,6 +55,7 @@ type totality struct {
 	// switchReach lets a property show that the types a sealed switch misses
 	// cannot reach it (dynamic-type inference on the operand).
 	switchReach func(fb funcBody, ts *ast.TypeSwitchStmt, missing []string) (bool, string)
+	roots       *dataRoots
 }
 
 func isSortMethod(fb funcBody) bool {
@@ -82,7 +83,8 @@ func (t *totality) run() {
 			continue
 		}
 		fb := fb
-		// comma-ok / type-switch assertions are not single-result
+		roots := p.newDataRoots(fb)
+		t.roots = roots
 		ga.run(fb.Body, func(n ast.Node, f *facts) {
 			switch e := n.(type) {
 			case *ast.IndexExpr:
@@ -122,8 +124,10 @@ func (t *totality) run() {
 				dp, ok := pe.pathOf(e.Y)
 				if ok && f.nonzero[dp] {
 					c.OK(R("divzero"), key, e.Pos(), "divisor "+types.ExprString(e.Y)+" tested non-zero on every path")
+				} else if roots.rooted(stripConv(e.Y), 0) {
+					c.Bad(R("divzero"), key, e.Pos(), "no zero test of the divisor "+types.ExprString(e.Y)+" dominates this integer division, and the divisor is input data (facts: "+f.String()+")")
 				} else {
-					c.Bad(R("divzero"), key, e.Pos(), "no zero test of the divisor "+types.ExprString(e.Y)+" dominates this integer division (facts: "+f.String()+")")
+					c.Unk(R("divzero"), key, e.Pos(), "the divisor "+types.ExprString(e.Y)+" is not proved non-zero; it is a local computed from tables/helpers, not input data, so this is not decided")
 				}
 			case *ast.SelectorExpr:
 				if vp, ok := pe.pathOf(e.X); ok && f.maybeNil[vp] {
@@ -223,6 +227,10 @@ func (t *totality) index(fb funcBody, e *ast.IndexExpr, f *facts, pe pathEnv) {
 			c.OK(rule, key, e.Pos(), "contract: "+why)
 			return
 		}
+		if t.roots != nil && !t.roots.rooted(e.X, 0) {
+			c.Unk(rule, key, e.Pos(), fmt.Sprintf("index %d needs len(%s) >= %d, not proved; the slice is a local built from helpers/library results, not input data, so this is not decided", k, types.ExprString(e.X), k+1))
+			return
+		}
 		c.Bad(rule, key, e.Pos(), fmt.Sprintf("index %d needs len(%s) >= %d; guards on this path establish only %d (facts: %s)", k, types.ExprString(e.X), k+1, f.lenlb[xp], f.String()))
 		return
 	}
@@ -231,6 +239,8 @@ func (t *totality) index(fb funcBody, e *ast.IndexExpr, f *facts, pe pathEnv) {
 		if k, ok := lenMinus(pe, e.Index, xp, f); ok && k >= 1 {
 			if f.lenlb[xp] >= k {
 				c.OK(rule, key, e.Pos(), fmt.Sprintf("len(%s) >= %d on every path", types.ExprString(e.X), f.lenlb[xp]))
+			} else if t.roots != nil && !t.roots.rooted(e.X, 0) {
+				c.Unk(rule, key, e.Pos(), "not proved; the slice is not input data")
 			} else {
 				c.Bad(rule, key, e.Pos(), fmt.Sprintf("index len-%d needs len >= %d; established %d", k, k, f.lenlb[xp]))
 			}
@@ -275,6 +285,12 @@ func (t *totality) index(fb funcBody, e *ast.IndexExpr, f *facts, pe pathEnv) {
 	if why, ok := trustedIndex[key]; ok {
 		c.OK(rule, key, e.Pos(), "contract: "+why)
 		return
+	}
+	if arrLen >= 0 && t.roots != nil && t.roots.rooted(e.Index, 0) {
+		if b, ok := p.Info.TypeOf(e.Index).Underlying().(*types.Basic); ok && b.Info()&types.IsInteger != 0 {
+			c.Bad(rule, key, e.Pos(), fmt.Sprintf("a fixed array of %d elements is indexed by input data (%s) with no bound on any path", arrLen, types.ExprString(e.Index)))
+			return
+		}
 	}
 	c.Unk(rule, key, e.Pos(), "variable index outside the recognised idioms (range key, i < len guard, make(len), modulo len, sort.Interface) and not in the contract table; facts: "+f.String())
 }
@@ -322,6 +338,10 @@ func (t *totality) slice(fb funcBody, e *ast.SliceExpr, f *facts, pe pathEnv) {
 			c.OK(rule, key, e.Pos(), "contract: "+why)
 			return
 		}
+		if t.roots != nil && !t.roots.rooted(e.X, 0) {
+			c.Unk(rule, key, e.Pos(), fmt.Sprintf("slice bounds need len(%s) >= %d, not proved; the slice is not input data, so this is not decided", types.ExprString(e.X), need))
+			return
+		}
 		c.Bad(rule, key, e.Pos(), fmt.Sprintf("slice bounds need len(%s) >= %d; guards on this path establish only %d (facts: %s)", types.ExprString(e.X), need, f.lenlb[xp], f.String()))
 		return
 	}
@@ -333,3 +353,23 @@ func (t *totality) slice(fb funcBody, e *ast.SliceExpr, f *facts, pe pathEnv) {
 }
 
 var _ = strings.TrimSpace
+
+// stripConv removes conversions around an expression.
+func stripConv(e ast.Expr) ast.Expr {
+	for {
+		e = ast.Unparen(e)
+		call, ok := e.(*ast.CallExpr)
+		if !ok || len(call.Args) != 1 {
+			return e
+		}
+		if id, ok := call.Fun.(*ast.SelectorExpr); ok && id.Sel.Name == "Duration" {
+			e = call.Args[0]
+			continue
+		}
+		if id, ok := call.Fun.(*ast.Ident); ok && (id.Name == "int64" || id.Name == "uint64" || id.Name == "int" || id.Name == "float64") {
+			e = call.Args[0]
+			continue
+		}
+		return e
+	}
+}
